@@ -30,6 +30,8 @@ mod tests;
 pub use self::interpreter_trait::InterpreterTrait;
 pub use self::main::new_default_interpreter;
 pub use self::stdlib::*;
+#[cfg(feature = "verif")]
+pub use self::main::verif;
 
 fn is_cr_lf(ch: char) -> bool {
     ch == '\r' || ch == '\n'
